@@ -578,11 +578,22 @@ def c15(ctx):
     for rp in reports:
         txt = open(rp).read()
         races += txt.count("WARNING: DATA RACE")
+    crash = None
     if p.returncode not in (0, 66):
-        raise Infra("conc driver failed rc=%d:\n%s" % (p.returncode, p.stdout[-3000:]))
-    ctx.log("driver (race detector on):", p.stdout.strip().splitlines()[-1] if p.stdout.strip() else "", "races reported: %d" % races)
-    mism = validate_trace(ctx, "TraceConc.tla", "TraceConc.cfg", trace, shards=1, per_shard_workers=1,
-                          classify=lambda ev: "%s|%s" % (ev["call"].split("/")[0], ev["context"].split(":")[0]))
+        # a Go panic / fatal error: a verdict only if it happened inside the library (a crash of the harness is not)
+        lib = [l for l in p.stdout.splitlines() if "github.com/oasisprotocol/ed25519" in l and "verifharness" not in l]
+        if ("panic:" in p.stdout or "fatal error:" in p.stdout) and lib:
+            crash = {"op": "crash", "what": "the library crashed under concurrent / sequential use (panic or fatal error with library frames on the stack)",
+                     "report": p.stdout[-6000:]}
+        else:
+            raise Infra("conc driver failed rc=%d:\n%s" % (p.returncode, p.stdout[-3000:]))
+    ctx.log("driver (race detector on):", (p.stdout.strip().splitlines()[-1] if p.stdout.strip() else "")[:200], "races reported: %d" % races)
+    mism = []
+    if crash:
+        mism.append((crash, "CRASH"))
+    if os.path.exists(trace) and os.path.getsize(trace) > 0 and not crash:
+        mism += validate_trace(ctx, "TraceConc.tla", "TraceConc.cfg", trace, shards=1, per_shard_workers=1,
+                               classify=lambda ev: "%s|%s" % (ev["call"].split("/")[0], ev["context"].split(":")[0]))
     if races or p.returncode == 66:
         ev = {"op": "race", "what": "the race detector reported %d data race(s) during concurrent calls" % races,
               "report": (open(reports[0]).read()[:4000] if reports else p.stdout[-4000:])}
